@@ -238,7 +238,7 @@ macro_rules! float_forms {
                 || format!("{} * Quaternion", stringify!($S)));
             $ctx.left.rec((s / qb).bits() == Quaternion::from_sv(s / qb.s, s / qb.v).bits() && (s / &qb).bits() == (s / qb).bits(),
                 || format!("{} / Quaternion", stringify!($S)));
-            let ql = vec![qa, qb, qa];
+            let ql = vec![qa, qb, qb];   // not a palindrome: a reversed fold must differ
             let (fs, fp) = (ql.iter().fold(Quaternion::<$S>::zero(), |acc, x| acc + *x), ql.iter().fold(Quaternion::<$S>::one(), |acc, x| acc * *x));
             let (s1, s2): (Quaternion<$S>, Quaternion<$S>) = (ql.iter().sum(), ql.clone().into_iter().sum());
             let (p1, p2): (Quaternion<$S>, Quaternion<$S>) = (ql.iter().product(), ql.clone().into_iter().product());
@@ -269,10 +269,10 @@ macro_rules! float_forms {
             bin4!($ctx, &format!("Basis2<{}> * Basis2", stringify!($S)), b2a, b2b, *);
             let (b3a, b3b): (Basis3<$S>, Basis3<$S>) = (Basis3::from_quaternion(&qa), Basis3::from_quaternion(&qb));
             bin4!($ctx, &format!("Basis3<{}> * Basis3", stringify!($S)), b3a, b3b, *);
-            let l2 = vec![b2a, b2b, b2a];
+            let l2 = vec![b2a, b2b, b2b];
             let f2 = l2.iter().fold(Basis2::<$S>::one(), |acc, x| acc * *x);
             let (p1, p2): (Basis2<$S>, Basis2<$S>) = (l2.iter().product(), l2.clone().into_iter().product());
-            let l3 = vec![b3a, b3b, b3a];
+            let l3 = vec![b3a, b3b, b3b];
             let f3 = l3.iter().fold(Basis3::<$S>::one(), |acc, x| acc * *x);
             let (q1, q2): (Basis3<$S>, Basis3<$S>) = (l3.iter().product(), l3.clone().into_iter().product());
             $ctx.folds.rec(p1.bits() == f2.bits() && p2.bits() == f2.bits() && q1.bits() == f3.bits() && q2.bits() == f3.bits(),
